@@ -21,6 +21,7 @@ Supported subset
   returns the current state when the fuel runs out), calls of local closures (inlined),
   `return`; `assert` and `logging.*` are skipped (asserts are listed in the doc comment).
 
+* `if c: return x` followed by more statements (an early return) becomes `if c then x else <rest>`;
 * exceptions and calls (used by gen_liveindex.py): `raise` is translated into a *failure
   condition* – the disjunction of the path conditions of all `raise` statements – and the
   translated function returns `none` when it holds, `some <result>` otherwise (all translated
@@ -117,11 +118,13 @@ class Ctx:
         self.writes: list[str] = []
         self.path: list[str] = []                    # conditions under which this region executes
         self.fails: list[str] = []                   # path conditions of the `raise` statements met
+        self.early: list = []                        # (path condition, Ret) of `if c: return x` statements
 
     def fork(self) -> "Ctx":
         c = Ctx()
         c.env, c.records, c.lists, c.shared = dict(self.env), dict(self.records), dict(self.lists), set(self.shared)
         c.lets, c.reads, c.writes, c.fails = self.lets, self.reads, self.writes, self.fails   # shared accumulators
+        c.early = self.early
         c.path = list(self.path)
         return c
 
@@ -159,10 +162,9 @@ class Translator:
         return c.env[key]
 
     def ex(self, c: Ctx, e) -> tuple[str, str]:
+        if not isinstance(e, (ast.Name, ast.Constant)) and ast.unparse(e) in self.ext_calls:
+            return self.ext_calls[ast.unparse(e)]
         if isinstance(e, ast.Call):
-            text = ast.unparse(e)
-            if text in self.ext_calls:
-                return self.ext_calls[text]
             ftext = ast.unparse(e.func)
             if ftext in self.ext_funcs and len(e.args) == 1 and not e.keywords:
                 a, t = self.ex(c, e.args[0])
@@ -445,6 +447,7 @@ class Translator:
         nc = Ctx()
         nc.lets, nc.reads, nc.writes, nc.fails = c.lets, c.reads, c.writes, c.fails
         nc.path = list(c.path)
+        n_early = len(nc.early)
         for p, a in zip(params, args):
             nc.env[p] = self.ex(c, a)
         r = self.block(nc, fn.body)
@@ -452,6 +455,8 @@ class Translator:
             return RAISED
         if r is None:
             raise CannotTranslate(f"{fn.name} does not end with `return`")
+        if len(nc.early) != n_early:
+            raise CannotTranslate(f"early return in the inlined method {fn.name}")
         return r.values
 
     def assign(self, c: Ctx, target, value):
@@ -564,8 +569,16 @@ class Translator:
         a.path.append(cond)
         b.path.append(f"(¬ {cond})")
         ra, rb = self.block(a, s.body), self.block(b, s.orelse)
-        if isinstance(ra, Ret) or isinstance(rb, Ret):
-            raise CannotTranslate("return inside `if`")
+        if isinstance(ra, Ret) and isinstance(rb, Ret):
+            raise CannotTranslate("both branches of an `if` return")
+        # `if c: return x` – an early return: recorded with its path condition; the caller builds
+        # `if c then x else <rest>` (earlier returns first; all expressions are total and pure)
+        if isinstance(ra, Ret):
+            c.early.append(("(" + " ∧ ".join(a.path) + ")", ra))
+            ra = RAISED
+        if isinstance(rb, Ret):
+            c.early.append(("(" + " ∧ ".join(b.path) + ")", rb))
+            rb = RAISED
         if ra is RAISED and rb is RAISED:
             return RAISED
         if ra is RAISED:
@@ -585,7 +598,7 @@ class Translator:
             save_counter = self.counter
             cond, t = self.ex(inner, w.test)
             self.need(t, PROP, w.test)
-            if self.block(inner, w.body) is not None:
+            if self.block(inner, w.body) is not None or inner.early or inner.fails:
                 raise CannotTranslate("return or raise inside `while`")
             return inner, cond, save_counter
         inner, cond, _ = attempt(c.shared)
